@@ -60,6 +60,11 @@ func c12Jobs(o Options) []Job {
 	for _, n := range []int{1, 2} {
 		for _, typed := range []bool{false, true} {
 			jobs = append(jobs, Job{Harness: "gonnx.H_C12_model", Case: map[string]interface{}{"n": n, "typed": typed}})
+			if n == 2 {
+				// the float initializer doubles as a declared graph input (a default the caller may override per Run)
+				jobs = append(jobs, Job{Harness: "gonnx.H_C12_model", Case: map[string]interface{}{"n": n, "typed": typed, "defaulted": true}})
+				jobs = append(jobs, Job{Harness: "gonnx.H_C12_model", Case: map[string]interface{}{"n": n, "typed": typed, "defaulted": true, "noshape": true}})
+			}
 		}
 	}
 	return jobs
